@@ -16,6 +16,8 @@ From ApiFu Require Import Idle.IdleModel Idle.IdleSpec Idle.IdleProofs Idle.Idle
 From ApiFu Require Fut.Plan Fut.Future Fut.ExecAsync Fut.AsyncRun.
 Import ListNotations.
 
+Notation ids0 := IdleModel.ids.
+
 Section Joint.
 Variable p : prog.
 Hypothesis WF : wf_items p = true.
@@ -179,7 +181,7 @@ Proof.
   apply run_app in R as [sc [Rc R]]. cbn [run] in R.
   destruct (step fx p sc LIdleExit) as [sd|] eqn:ED; [|discriminate]. inversion R; subst sd; clear R.
   assert (EBs : sb = set_phase s PTop).
-  { simpl in EB. unfold do_idle_enter in EB. rewrite PP in EB. destruct (_ && _); [|discriminate]. now inversion EB. }
+  { simpl in EB. unfold do_idle_enter in EB. rewrite PP in EB. destruct (existsb _ _); [|discriminate]. now inversion EB. }
   assert (PC : st_phase sc = PDrain /\ s' = set_phase sc PPoll).
   { simpl in ED. unfold do_idle_exit in ED. destruct (st_phase sc); try discriminate.
     destruct (forallb _ _); [|discriminate]. inversion ED. auto. }
@@ -328,6 +330,63 @@ Proof.
         -- destruct (Nat.eqb_spec x w); [congruence|]. reflexivity.
 Qed.
 
+Lemma step_abandoned_same s l s' :
+  step fx p s l = Some s' -> (forall w, l <> LAbandon w) -> forall x, st_abandoned s' x = st_abandoned s x.
+Proof.
+  intros H NA x. destruct l as [w|w|w| |k its| |w|c|w|w| | |w| ]; simpl in H.
+  - unfold do_create in H. destruct (st_phase s); try discriminate. destruct (lookup p w) as [it|]; [|discriminate].
+    destruct (_ && _); [|discriminate].
+    destruct (it_kind it); [| | |destruct (forallb _ _); [|discriminate]]; inversion H; reflexivity.
+  - unfold do_consume in H. destruct (st_phase s); try discriminate. destruct (lookup p w) as [it|]; [|discriminate].
+    destruct (st_chan s w); [|discriminate]. destruct (negb _); [|discriminate]. inversion H; reflexivity.
+  - exfalso. apply (NA w). reflexivity.
+  - unfold do_idle_enter in H. destruct (st_phase s); try discriminate. destruct (existsb _ _); [|discriminate].
+    inversion H; reflexivity.
+  - unfold do_flush in H.
+    assert (H' : (if list_eqb its (map fst (entries_of p k (st_pend s))) && negb (is_nil its)
+                  then let rs := p_bfun p k its in
+                       if Nat.ltb (length its) (length rs) then Some (set_phase s PPanic)
+                       else match deliver_all (st_chan s) (map snd (entries_of p k (st_pend s))) rs with
+                            | Some ch' => Some (set_phase (set_pend (set_chans s ch') (rest_of p k (st_pend s))) PFlush)
+                            | None => None
+                            end
+                  else None) = Some s') by (destruct (st_phase s); try discriminate; exact H).
+    clear H. destruct (_ && _); [|discriminate]. cbv zeta in H'.
+    destruct (Nat.ltb _ _); [inversion H'; reflexivity|].
+    destruct (deliver_all _ _ _); [|discriminate]. inversion H'; reflexivity.
+  - unfold do_flush_done in H. destruct (st_phase s); try discriminate.
+    destruct (is_nil (st_pend s)); [|discriminate]. inversion H; reflexivity.
+  - unfold do_finish in H. destruct (st_gor s w); try discriminate. destruct (lookup p w); [|discriminate].
+    inversion H; reflexivity.
+  - unfold do_read in H. destruct (st_gor s c); try discriminate. destruct (lookup p c) as [it|]; [|discriminate].
+    destruct (it_kind it) as [| | |inn]; try discriminate. destruct (nth_error inn j) as [q|]; [|discriminate].
+    destruct (st_chan s q) as [r|]; [|discriminate].
+    destruct r; [destruct (Nat.eqb (S j) (length inn))|]; inversion H; reflexivity.
+  - unfold do_arrive in H. destruct (st_gor s w); try discriminate. inversion H; reflexivity.
+  - unfold do_recv in H. destruct (st_gor s w); try discriminate. destruct (st_chan s w); [discriminate|].
+    cbv zeta in H. destruct (st_phase s); try discriminate.
+    + destruct (is_nil (st_pend s)); [|discriminate].
+      destruct (st_chained s w); [destruct (v_loop fx)|]; inversion H; reflexivity.
+    + inversion H; reflexivity.
+  - unfold do_idle_exit in H. destruct (st_phase s); try discriminate. destruct (forallb _ _); [|discriminate].
+    inversion H; reflexivity.
+  - unfold do_end in H. destruct (st_phase s); try discriminate. destruct (forallb _ _); [|discriminate].
+    inversion H; reflexivity.
+  - unfold do_exit in H. destruct (st_phase s); try discriminate. destruct (v_fix fx); [|discriminate].
+    destruct (st_gor s w); try discriminate; inversion H; reflexivity.
+  - unfold do_cancel in H. destruct (st_cancelled s); [discriminate|]. inversion H; reflexivity.
+Qed.
+
+Lemma run_abandoned_same : forall tr s s',
+  run fx p s tr = Some s' -> (forall w, ~ In (LAbandon w) tr) -> forall x, st_abandoned s' x = st_abandoned s x.
+Proof.
+  induction tr as [|l tr IH]; intros s s' R NA x; simpl in R.
+  - inversion R; reflexivity.
+  - destruct (step fx p s l) as [s1|] eqn:E; [|discriminate].
+    rewrite (IH s1 s' R); [|intros w X; apply (NA w); now right].
+    apply (step_abandoned_same s l s1 E). intros w ->. apply (NA w). now left.
+Qed.
+
 (** the promises a poll received: in the channels before, not after *)
 Definition taken_ids (st st' : ExecAsync.st) : list nat :=
   filter (fun w => negb (mem w (map fst (ExecAsync.s_chans st'))))
@@ -340,7 +399,7 @@ Proof.
   - intros [[a b] [E X]]. simpl in E. subst. eauto.
 Qed.
 
-Theorem poll_is_creates_and_consumes st st' s m new :
+Theorem poll_cc st st' s m new :
   K st s -> Inv p s -> Sim p s m -> st_phase s = PPoll ->
   ExecAsync.s_proms st' = ExecAsync.s_proms st ++ new ->
   (forall k pr, nth_error new k = Some pr ->
@@ -350,7 +409,10 @@ Theorem poll_is_creates_and_consumes st st' s m new :
   exists s' m',
     run fx p s (map LCreate (seq (length (ExecAsync.s_proms st)) (length new)) ++
                 map LConsume (taken_ids st st')) = Some s' /\
-    K st' s' /\ Inv p s' /\ Sim p s' m' /\ st_phase s' = PPoll.
+    K st' s' /\ Inv p s' /\ Sim p s' m' /\ st_phase s' = PPoll /\
+    (forall x, st_created s' x = true <-> x < length (ExecAsync.s_proms st')) /\
+    (forall x, st_taken s' x = st_taken s x || mem x (taken_ids st st')) /\
+    (forall x, st_abandoned s' x = st_abandoned s x).
 Proof.
   intros KK IV SM PH EP NEW SUB LEN.
   set (c := length (ExecAsync.s_proms st)) in *.
@@ -363,7 +425,14 @@ Proof.
   assert (TND : NoDup (taken_ids st st')) by (apply NoDup_filter, NoDup_nodup).
   destruct (consumes_run (taken_ids st st') s1 m1 IV1 SM1 PH1 TND TF)
     as [s2 [m2 [R2 [IV2 [SM2 [PH2 [A2 [B2 D2]]]]]]]].
-  exists s2, m2. split; [apply run_app; eauto|]. split; [|auto].
+  exists s2, m2. split; [apply run_app; eauto|].
+  assert (REST : (forall x, st_created s2 x = true <-> x < length (ExecAsync.s_proms st')) /\
+                 (forall x, st_taken s2 x = st_taken s x || mem x (taken_ids st st')) /\
+                 (forall x, st_abandoned s2 x = st_abandoned s x)).
+  { split; [intro x; rewrite A2, A1, EP, app_length; reflexivity|]. split; [intro x; rewrite D2, D1; reflexivity|].
+    intro x. rewrite (run_abandoned_same _ _ _ R2); [apply (run_abandoned_same _ _ _ R1)|];
+      intros w X; apply in_map_iff in X as [y [Y _]]; discriminate. }
+  split; [|repeat (split; auto); apply REST].
   assert (TIN : forall w, mem w (taken_ids st st') = true <->
                           In w (map fst (ExecAsync.s_chans st)) /\ ~ In w (map fst (ExecAsync.s_chans st'))).
   { intro w. rewrite mem_In. unfold taken_ids. rewrite filter_In, nodup_In, negb_true_iff. split.
@@ -401,4 +470,218 @@ Proof.
         assert (Z : mem w (taken_ids st st') = true) by (apply TIN; auto). congruence.
 Qed.
 
+Theorem poll_is_creates_and_consumes st st' s m new :
+  K st s -> Inv p s -> Sim p s m -> st_phase s = PPoll ->
+  ExecAsync.s_proms st' = ExecAsync.s_proms st ++ new ->
+  (forall k pr, nth_error new k = Some pr ->
+     ExecAsync.p_id pr = length (ExecAsync.s_proms st) + k /\ ExecAsync.p_done pr = false) ->
+  (forall x, In x (ExecAsync.s_chans st') -> In x (ExecAsync.s_chans st)) ->
+  length (ExecAsync.s_proms st') <= length (p_items p) ->
+  exists s' m',
+    run fx p s (map LCreate (seq (length (ExecAsync.s_proms st)) (length new)) ++
+                map LConsume (taken_ids st st')) = Some s' /\
+    K st' s' /\ Inv p s' /\ Sim p s' m' /\ st_phase s' = PPoll.
+Proof.
+  intros KK IV SM PH EP NEW SUB LEN.
+  destruct (poll_cc st st' s m new KK IV SM PH EP NEW SUB LEN) as [s' [m' [R [A [B [C [D _]]]]]]].
+  exists s', m'. auto.
+Qed.
+
+(** ** The executor's half, second part: abandonment and the guards
+
+    [KG st g s]: the coupling together with C02's ghost [g] — [g_ids g] are the promises the future
+    being waited for still awaits ([Live.v]); in the LTS: the live items. *)
+
+Lemma live_flat s w : Inv p s ->
+  (live p s w = true <-> st_created s w = true /\ st_taken s w = false /\ st_abandoned s w = false).
+Proof.
+  intro IV. split.
+  - intro LV. destruct (live_inv p s w LV) as [it [_ [_ [_ [A [B C]]]]]]. auto.
+  - intros [A [B C]]. destruct (c_created p s IV w A) as [it L]. destruct (FLAT w it L) as [_ [NI GB]].
+    unfold live. rewrite L, NI, A, B, C. destruct (it_kind it); try discriminate; reflexivity.
+Qed.
+
+Lemma abandons_run : forall A s m,
+  Inv p s -> Sim p s m -> st_phase s = PPoll -> NoDup A -> (forall w, In w A -> live p s w = true) ->
+  exists s' m', run fx p s (map LAbandon A) = Some s' /\ Inv p s' /\ Sim p s' m' /\ st_phase s' = PPoll /\
+                (forall x, st_created s' x = st_created s x) /\ (forall x, st_chan s' x = st_chan s x) /\
+                (forall x, st_taken s' x = st_taken s x) /\
+                (forall x, st_abandoned s' x = st_abandoned s x || mem x A).
+Proof.
+  induction A as [|w A IH]; intros s m IV SM PH ND LV.
+  - exists s, m. split; [reflexivity|]. repeat (split; [auto|]). intro x. unfold mem. simpl. now rewrite orb_false_r.
+  - inversion ND as [|? ? NI ND']; subst.
+    assert (E : step fx p s (LAbandon w) = Some (set_abandoned s w)).
+    { simpl. unfold do_abandon. rewrite PH, (LV w (or_introl eq_refl)). reflexivity. }
+    destruct (step_preserves p WF BF fx s m (LAbandon w) _ IV SM E) as [m1 [_ [IV1 SM1]]].
+    destruct (IH (set_abandoned s w) m1 IV1 SM1) as [s' [m' [R [IV' [SM' [PH' [A1 [B1 [C1 D1]]]]]]]]]; auto.
+    + intros x X. apply (live_flat _ _ IV1). pose proof (LV x (or_intror X)) as LX. apply (live_flat _ _ IV) in LX.
+      destruct LX as [P [Q U]]. simpl. repeat split; auto. rewrite upd_other; auto. intro; subst; tauto.
+    + exists s', m'. cbn [map run]. rewrite E. split; [exact R|].
+      repeat (split; [auto|]). intro x. rewrite D1. simpl. unfold mem. simpl.
+      destruct (upd_cases (st_abandoned s) w true x) as [[-> U]|[N U]]; rewrite U.
+      * rewrite Nat.eqb_refl. simpl. now rewrite orb_true_r.
+      * destruct (Nat.eqb_spec x w); [congruence|]. reflexivity.
+Qed.
+
+Record KG (st : ExecAsync.st) (ids : list nat) (s : state) : Prop := mkKG {
+  kg_k : K st s;
+  kg_await : forall w, In w ids <-> live p s w = true
+}.
+
+(** the handler's round keeps the awaited set *)
+Theorem round_preserves_KG st ids s m mid s' :
+  KG st ids s -> Inv p s -> Sim p s m -> st_phase s = PPoll ->
+  run fx p s (LIdleEnter :: mid ++ [LIdleExit]) = Some s' -> ~ In LIdleExit mid ->
+  exists st', ExecAsync.idle (fun _ _ => deliveries mid) st = Some st' /\ KG st' ids s' /\
+              ExecAsync.s_round st' = S (ExecAsync.s_round st) /\ st_phase s' = PPoll.
+Proof.
+  intros [KK AW] IV SM PP R NX.
+  destruct (round_preserves_coupling st s m mid s' KK IV SM PP R NX) as [st' [ID [KK' [RD PH']]]].
+  exists st'. split; auto. split; [|auto]. constructor; auto.
+  (* live is unchanged by the round *)
+  destruct (run_preserves p WF BF fx _ s m s' IV SM R) as [m' [_ [IV' SM']]].
+  intro w. rewrite AW, (live_flat s w IV), (live_flat s' w IV').
+  pose proof R as R0. cbn [run] in R. destruct (step fx p s LIdleEnter) as [sb|] eqn:EB; [|discriminate].
+  destruct (step_preserves p WF BF fx s m LIdleEnter sb IV SM EB) as [mb [_ [IVb SMb]]].
+  apply run_app in R as [sc [Rc R]]. cbn [run] in R.
+  destruct (step fx p sc LIdleExit) as [sd|] eqn:ED; [|discriminate]. inversion R; subst sd; clear R.
+  assert (EBs : sb = set_phase s PTop).
+  { simpl in EB. unfold do_idle_enter in EB. rewrite PP in EB. destruct (existsb _ _); [|discriminate]. now inversion EB. }
+  assert (EDs : s' = set_phase sc PPoll).
+  { simpl in ED. unfold do_idle_exit in ED. destruct (st_phase sc); try discriminate.
+    destruct (forallb _ _); [|discriminate]. now inversion ED. }
+  assert (HIb : in_idle (st_phase sb)) by (subst sb; left; reflexivity).
+  destruct (idle_effect mid sb mb sc IVb SMb HIb Rc NX) as [A [B _]].
+  assert (AB : forall x, st_abandoned sc x = st_abandoned sb x).
+  { apply (run_abandoned_same mid sb sc Rc). intros a X.
+    destruct (segment p BF fx mid sb sc HIb Rc NX) as [_ _].
+    (* an abandon step is not enabled inside the handler *)
+    apply in_split in X as [t1 [t2 ->]]. apply run_app in Rc as [sx [R1 R2]]. cbn [run] in R2.
+    destruct (segment p BF fx t1 sb sx HIb R1) as [HIx _]; [intro Y; apply NX; apply in_or_app; now left|].
+    simpl in R2. unfold do_abandon in R2. destruct HIx as [Z|[Z|Z]]; rewrite Z in R2; discriminate. }
+  subst sb s'. simpl in *. rewrite A, B, AB. reflexivity.
+Qed.
+
+(** (a) + the poll: creates, consumes and abandons; the awaited set afterwards is [ids'] *)
+Theorem poll_preserves_KG st st' ids ids' s m new :
+  KG st ids s -> Inv p s -> Sim p s m -> st_phase s = PPoll ->
+  ExecAsync.s_proms st' = ExecAsync.s_proms st ++ new ->
+  (forall k pr, nth_error new k = Some pr ->
+     ExecAsync.p_id pr = length (ExecAsync.s_proms st) + k /\ ExecAsync.p_done pr = false) ->
+  (forall x, In x (ExecAsync.s_chans st') -> In x (ExecAsync.s_chans st)) ->
+  length (ExecAsync.s_proms st') <= length (p_items p) ->
+  (* Acct: ac_ids, ac_taken *)
+  (forall id, In id ids' -> In id ids \/ length (ExecAsync.s_proms st) <= id < length (ExecAsync.s_proms st')) ->
+  (forall x, In x (ExecAsync.s_chans st) -> ~ In x (ExecAsync.s_chans st') -> ~ In (fst x) ids') ->
+  exists tr s' m',
+    run fx p s tr = Some s' /\
+    Forall (fun l => match l with LCreate _ | LConsume _ | LAbandon _ => True | _ => False end) tr /\
+    KG st' ids' s' /\ Inv p s' /\ Sim p s' m' /\ st_phase s' = PPoll.
+Proof.
+  intros [KK AW] IV SM PH EP NEW SUB LEN AID ATK.
+  destruct (poll_cc st st' s m new KK IV SM PH EP NEW SUB LEN)
+    as [s2 [m2 [R2 [KK2 [IV2 [SM2 [PH2 [CR2 [TK2 AB2]]]]]]]]].
+  set (c := length (ExecAsync.s_proms st)) in *.
+  set (c' := length (ExecAsync.s_proms st')) in *.
+  assert (CC : c' = c + length new) by (unfold c', c; rewrite EP, app_length; reflexivity).
+  set (A := filter (fun w => live p s2 w && negb (mem w ids')) (seq 0 c')).
+  assert (AND : NoDup A) by (apply NoDup_filter, seq_NoDup).
+  assert (ALV : forall w, In w A -> live p s2 w = true).
+  { intros w X. apply filter_In in X as [_ X]. now apply andb_true_iff in X as [X _]. }
+  destruct (abandons_run A s2 m2 IV2 SM2 PH2 AND ALV) as [s3 [m3 [R3 [IV3 [SM3 [PH3 [C3 [H3 [T3 B3]]]]]]]]].
+  exists ((map LCreate (seq c (length new)) ++ map LConsume (taken_ids st st')) ++ map LAbandon A), s3, m3.
+  split; [apply run_app; eauto|]. split.
+  { apply Forall_app. split; [apply Forall_app; split|]; apply Forall_forall; intros l X;
+      apply in_map_iff in X as [w [<- _]]; exact I. }
+  split; [|auto]. constructor.
+  - (* K does not look at the abandoned flags *)
+    destruct KK2 as [P1 P2 P3 P4]. constructor; auto.
+    + intro w. rewrite C3. apply P2.
+    + intros w pr N. rewrite H3, T3. apply (P3 w pr N).
+    + intro w. rewrite H3. apply P4.
+  - intro w. rewrite (live_flat s3 w IV3), C3, T3, B3.
+    assert (L2 : live p s2 w = true <-> st_created s2 w = true /\ st_taken s2 w = false /\ st_abandoned s2 w = false)
+      by (apply live_flat; auto).
+    assert (MA : mem w A = true <-> live p s2 w = true /\ ~ In w ids' /\ w < c').
+    { rewrite mem_In. unfold A. rewrite filter_In, in_seq, andb_true_iff, negb_true_iff. split.
+      - intros [X [Y Z]]. apply mem_false in Z. repeat split; auto. lia.
+      - intros [X [Y Z]]. split; [lia|]. split; auto. now apply mem_false. }
+    assert (NOTT : forall x, In x ids' -> mem x (taken_ids st st') = false).
+    { intros x X. destruct (mem x (taken_ids st st')) eqn:MT; auto. exfalso.
+      apply mem_In in MT. unfold taken_ids in MT. apply filter_In in MT as [M1 M2]. apply nodup_In in M1.
+      apply negb_true_iff, mem_false in M2. apply in_map_iff in M1 as [[a b] [E M1]]. simpl in E; subst a.
+      apply (ATK (x, b) M1); auto. intro Y. apply M2. apply in_map_iff. exists (x, b). auto. }
+    split.
+    + (* awaited => live *)
+      intro X.
+      assert (LW : live p s2 w = true).
+      { apply L2. destruct (AID w X) as [Y|Y].
+        - apply AW in Y. apply (live_flat s w IV) in Y as [P [Q U]].
+          apply (k_created st s KK) in P. fold c in P.
+          split; [apply CR2; fold c'; lia|]. split; [rewrite TK2, Q, (NOTT w X); reflexivity|]. now rewrite AB2.
+        - fold c c' in Y.
+          assert (NCR : st_created s w = false).
+          { destruct (st_created s w) eqn:E; auto. apply (k_created st s KK) in E. fold c in E. lia. }
+          destruct (c_fresh p s IV w NCR) as [_ [_ [TN AN]]].
+          split; [apply CR2; fold c'; lia|]. split; [rewrite TK2, TN, (NOTT w X); reflexivity|]. now rewrite AB2. }
+      apply L2 in LW as [P [Q U]]. repeat split; auto. rewrite U. simpl.
+      destruct (Bool.bool_dec (mem w A) true) as [MW|MW]; [|now destruct (mem w A)].
+      apply MA in MW as [_ [Y _]]. tauto.
+    + intros [P [Q U]]. apply orb_false_iff in U as [U MW].
+      assert (LW : live p s2 w = true) by (apply L2; auto).
+      destruct (in_dec Nat.eq_dec w ids') as [Y|Y]; auto. exfalso.
+      assert (WC : w < c') by (apply CR2; auto).
+      assert (Z : mem w A = true) by (apply MA; auto). congruence.
+Qed.
+
+(** (b) the guards *)
+Theorem pending_enables_idle_enter st ids s :
+  KG st ids s -> st_phase s = PPoll ->
+  (exists id, In id ids /\ id < length (ExecAsync.s_proms st) /\ forall ok, ~ In (id, ok) (ExecAsync.s_chans st)) ->
+  exists s', step fx p s LIdleEnter = Some s'.
+Proof.
+  intros [KK AW] PH [id [X [LT NO]]].
+  assert (LV : live p s id = true) by (apply AW; auto).
+  assert (CE : chan_empty s id = true).
+  { unfold chan_empty. destruct (st_chan s id) eqn:C; auto. exfalso.
+    assert (Y : st_chan s id <> None) by congruence. apply (k_chans st s KK) in Y as [ok Y]. exact (NO ok Y). }
+  simpl. unfold do_idle_enter. rewrite PH.
+  assert (EX : existsb (fun w => live p s w && chan_empty s w) (ids0 p) = true).
+  { apply existsb_exists. exists id. split; [|now rewrite LV, CE].
+    destruct (live_inv p s id LV) as [it [L _]]. eapply lookup_ids; eauto. }
+  rewrite EX. eauto.
+Qed.
+
+Theorem ready_enables_end st s :
+  KG st [] s -> st_phase s = PPoll -> exists s', step fx p s LEnd = Some s'.
+Proof.
+  intros [KK AW] PH. simpl. unfold do_end. rewrite PH.
+  assert (NL : forallb (fun w => negb (live p s w)) (ids0 p) = true).
+  { apply forallb_forall. intros w _. destruct (live p s w) eqn:LV; auto. apply AW in LV. destruct LV. }
+  rewrite NL. eauto.
+Qed.
+
 End Joint.
+
+(** ** What C02's accounting of a poll ([Acct], under its [World] invariant) provides of the hypotheses
+    of [poll_preserves_KG]: the shape of the promise table, the awaited ids, the received entries.
+    NOT provided (the one missing lemma, see Properties/C15.v): that the appended promises are not
+    done and that no channel entry is added — true of plans without prefilled tags (api-fu's Go and
+    Batch never send before they return) by reading ExecAsync.exec_field, not proved. *)
+From ApiFu Require Fut.Live Fut.Acct.
+Lemma acct_provides st st' g g' :
+  Acct.Acct st st' g g' -> Acct.chans_wf st -> Acct.ids_wf st g ->
+  (exists new, ExecAsync.s_proms st' = ExecAsync.s_proms st ++ new /\
+               forall k pr, nth_error new k = Some pr -> ExecAsync.p_id pr = length (ExecAsync.s_proms st) + k) /\
+  (forall id, In id (Live.g_ids g') ->
+     In id (Live.g_ids g) \/ length (ExecAsync.s_proms st) <= id < length (ExecAsync.s_proms st')) /\
+  (forall x, In x (ExecAsync.s_chans st) -> ~ In x (ExecAsync.s_chans st') -> ~ In (fst x) (Live.g_ids g')) /\
+  ExecAsync.s_round st' = ExecAsync.s_round st.
+Proof.
+  intros A CW IW. split; [|split; [|split]].
+  - destruct (Acct.ac_proms _ _ _ _ A) as [new [E N]]. exists new. split; auto.
+  - intros id X. destruct (Acct.ac_ids _ _ _ _ A id X) as [Y|Y]; auto.
+  - intros x X Y. destruct (Acct.ac_taken _ _ _ _ A CW IW x X Y) as [_ Z]. exact Z.
+  - apply (Acct.ac_round _ _ _ _ A).
+Qed.
